@@ -1,8 +1,10 @@
 SPECIFICATION Spec
+CONSTANT Deviations = {}
 CONSTANT Family = "graph"
 CONSTANT W1 = 2
 CONSTANT W2 = 2
 CONSTANT W3 = 2
+CONSTANT FilterLevel = 2
 CONSTANT BodyLevel = 2
 INVARIANT Refines
 INVARIANT ErrorsExact
